@@ -1,4 +1,4 @@
-From V Require Import Common.Base Common.Utf8 C07.LineCol C07.Builder C07.Vlq C07.SpecMap C07.Mappings C07.MappingsProofs C07.FindProofs C07.JoinProofs C07.SpecBuilder C07.LineColProofs C07.JoinAll C07.JoinAllProofs C07.Pipeline C07.Shift C07.ShiftProofs.
+From V Require Import Common.Base Common.Utf8 C07.LineCol C07.Builder C07.Vlq C07.SpecMap C07.Mappings C07.MappingsProofs C07.FindProofs C07.JoinProofs C07.SpecBuilder C07.LineColProofs C07.JoinAll C07.JoinAllProofs C07.Pipeline C07.Shift C07.ShiftProofs C07.BuilderIn C07.BuilderInProofs.
 (* non-vacuity / sanity: concrete values *)
 Example enc_ex : map encodeVLQ [0; 1; -1; 15; 16; -16; 123456] =
   [[65]; [67]; [68]; [101]; [103; 66]; [104; 66]; [103; 107; 120; 72]].
@@ -80,4 +80,22 @@ Proof.
       (split; [repeat (apply Forall_cons; [right; vm_compute; auto 10|]); apply Forall_nil|]);
       (split; [discriminate|]); lia.
   - cbn. repeat split; try reflexivity. repeat constructor; reflexivity.
+Qed.
+(* builder_composes: a sorted input map with names in range; the second call is
+   remapped through the input mapping at (0,2) with the input map's name, the
+   third (line 1, column 1 has no input mapping on its line before it) is dropped,
+   the fourth maps through (1,2) and keeps the caller's name *)
+Example builder_composes_ex :
+  let text := [97; 195; 169; 98; 10; 99; 100; 101] in
+  let ms := [mkMapping 0 0 2 7 1 None; mkMapping 0 2 1 5 5 (Some 1); mkMapping 1 2 0 9 0 None] in
+  let evs := [(0, 0, []); (3, 1, [120; 32]); (6, 0, [121; 10; 32; 32]); (7, 2, [122])] in
+  sorted_maps ms /\ names_in_range ms [4; 3] /\
+  Forall (fun e => boundary text (fst (fst e))) evs /\
+  builder_in_spec text ms [4; 3] evs [10] =
+    ([OMap 0 2 7 1 None; OMap 2 1 5 5 (Some 0); ONewline; OMap 3 0 9 0 (Some 1); ONewline], [3; 2], 0).
+Proof.
+  split; [cbn; unfold pos_le; cbn; lia|].
+  split; [repeat constructor|].
+  split; [repeat (apply Forall_cons; [right; vm_compute; auto 10|]); apply Forall_nil|].
+  vm_compute. reflexivity.
 Qed.
